@@ -386,6 +386,15 @@ class Interp:
         return tuple(out)
 
     def e_List(self, n, env):
+        if len(n.elts) == 1 and isinstance(n.elts[0], ast.Starred):
+            v = self.eval(n.elts[0].value, env)
+            if isinstance(v, self.models.SRange):
+                # [*range(a, b)] with symbolic bounds: list of ints idealised as an int vector
+                lo = v.lo
+                vec = Vec(z3.simplify(term(v.hi) - term(lo)), lambda i: mk(term(i) + term(lo)))
+                vec._kind = 'int'
+                return vec
+            return list(self.iterate(v))
         return list(self.e_Tuple(n, env))
 
     def e_Set(self, n, env):
